@@ -277,6 +277,32 @@ def part_refinement(sc):
     nd = sum(1 for x in v.values() if x != "conform")
     expect(len(badi) >= 5 and nd >= len(badi) // 2, f"a call recorded with its actual arguments swapped is (mostly) not what Inline.tla predicts ({nd}/{len(badi)})")
 
+    # BQM: real to_bqm calls; corruption = the recorded tree with its first two summands swapped for one (a dropped return bit)
+    from .drivers import c18
+    srcs = ["def f(a: bool, b: bool, c: bool) -> Tuple[bool, bool]:\n    return ((a and b) ^ c, a or c)",
+            "def f(a: Qint[2], b: Qint[2]) -> Qint[2]:\n    return a + b",
+            "def f(a: bool, b: bool, c: bool) -> Tuple[bool, bool, bool]:\n    return (a and b and c, a ^ b ^ c, not a)"]
+    brecs = [c for c in c18.job({"srcs": srcs}) if c.get("status") == "ok" and "merged" in c]
+    good = [{"id": k, "merged": c["merged"], "tree": c["trees"]["bqm"], "exc": c["exc"]} for k, c in enumerate(brecs)]
+    v, _ = tlc.run_cases("Trace_BQM", good, sc)
+    expect(len(good) == 3 and all(x == "conform" for x in v.values()), "recorded to_bqm trees conform to BQM.tla")
+    badb = [dict(g, tree=g["tree"]["terms"][0]) for g in good if g["tree"]["k"] == "add"]
+    v, _ = tlc.run_cases("Trace_BQM", badb, sc)
+    expect(len(badb) >= 2 and all(x.startswith("drift") for x in v.values()), "a model tree with a return bit's term dropped is drift for BQM.tla")
+    # AstPasses: real translations with tuple targets; corruption = the two recorded single assignments in swapped order
+    from .drivers import c01
+    res = c01.translate_job({"src": "def f(a: bool, b: bool) -> bool:\n    u, v = a, b\n    u, v = v, u ^ b\n    return u and v", "passes": True, "opts": ("default",)})
+    pc = dict(res["passes"], id=0)
+    v, _ = tlc.run_cases("Trace_AstPasses", [pc], sc)
+    expect(v[0] == "conform", "the recorded ReplaceMultiTargetAssign step conforms to AstPasses.tla")
+    import copy
+    bad = copy.deepcopy(pc)
+    for q in bad["passes"]:
+        if q["name"] == "ReplaceMultiTargetAssign":
+            q["def"]["body"][1], q["def"]["body"][2] = q["def"]["body"][2], q["def"]["body"][1]
+    v, _ = tlc.run_cases("Trace_AstPasses", [bad], sc)
+    expect(v[0].startswith("drift"), "a recorded ast with two of the generated assignments swapped is drift for AstPasses.tla")
+
 
 def main():
     use_repo()
